@@ -299,6 +299,25 @@ def r05_6(ctx):
             ctx.undecided('R05.6', tl.qual, 'exit under (%s) returns I +- A' % conds, r, src(r)[:80])
     # (b) in represent_fine the rows of the next level are zeroed whenever truncate is set, however Pj was built
     rf = ctx.prog.func(H + '.HSpace.represent_fine')
+    # (c) the caller's row selection is read-only: with restrict=True the result has exactly len(rows) rows (truncate_one_level
+    #     resizes / stacks it on that assumption), so `rows` may not be replaced by "all rows" as an efficiency shortcut --
+    #     needed_rows is the working variable for that
+    rparams = {a.arg for a in rf.node.args.args}
+    for pname in ('rows', 'restrict'):
+        if pname not in rparams:
+            continue
+        rebinds = [s for s in own_nodes(rf.node) if isinstance(s, (ast.Assign, ast.AugAssign))
+                   and any(isinstance(t, ast.Name) and t.id == pname for t in (s.targets if isinstance(s, ast.Assign) else [s.target]))]
+        bad = [s for s in rebinds if isinstance(s, ast.Assign) and isinstance(s.value, ast.Constant)]
+        if not rebinds:
+            ctx.met('R05.6', rf.qual, 'parameter `%s` of represent_fine is not rebound' % pname, rf.node, 'the row selection requested by the caller is honoured')
+        elif bad:
+            ctx.violated('R05.6', rf.qual, 'parameter `%s` of represent_fine is not rebound' % pname, bad[0],
+                         '`%s` (under %s) discards the caller\'s row selection; with restrict=True the function then returns all rows instead of '
+                         'len(rows), and truncate_one_level -> thb_to_hb silently cut or pad the block'
+                         % (src(bad[0]), ' and '.join(t for (t, _p, _n) in guards.path_conditions(bad[0])) or 'no condition'))
+        else:
+            ctx.undecided('R05.6', rf.qual, 'parameter `%s` of represent_fine is not rebound' % pname, rebinds[0], src(rebinds[0])[:80])
     zero = [s for s in own_nodes(rf.node) if isinstance(s, ast.Assign) and isinstance(s.targets[0], ast.Subscript)
             and isinstance(s.targets[0].value, ast.Name) and isinstance(s.value, ast.Constant) and s.value.value == 0
             and guards.in_loop(s, rf.node) is not None]
